@@ -302,10 +302,19 @@ func Encode(req int, op Op, nowNs int64) *Wire {
 			return strings.ReplaceAll(s, " ", `\ `)
 		}
 		var b bytes.Buffer
+		// the unit of the timestamps is a request parameter
+		prec := []struct {
+			q   string
+			div int64
+		}{{"", 1}, {"us", 1e3}, {"ms", 1e6}, {"s", 1e9}}[keyRot(op)%4]
+		if prec.q != "" {
+			w.Path += "?precision=" + prec.q
+		}
 		for si, s := range op.Streams {
 			meas := fmt.Sprintf("m%d", si%2)
 			for ei, e := range s.Entries {
 				ee, x := mk(si, ei, e, false)
+				x.TsNs = (ee.ts / prec.div) * prec.div
 				exp := map[string]string{"measurement": meas}
 				b.WriteString(meas)
 				for _, kv := range rotate(s.Labels, s.Perm) {
@@ -319,11 +328,27 @@ func Encode(req int, op Op, nowNs int64) *Wire {
 					fmt.Fprintf(&b, ",%s=%s", n, esc(kv[1]))
 					exp[n] = kv[1]
 				}
+				if ee.hasV && ei%3 == 1 {
+					// two numeric fields on one line: one series each, named after the field; an integer field among them
+					exp["__name__"] = "value"
+					x2 := *x
+					x2.Val = ee.val + 0.25
+					exp2 := map[string]string{}
+					for k, v := range exp {
+						exp2[k] = v
+					}
+					exp2["__name__"] = "extra_f"
+					x2.Labels, x2.LabelKey = exp2, labelKey(exp2)
+					fmt.Fprintf(&b, " value=%s,extra-f=%s,note=\"text\" %d\n", strconv.FormatFloat(ee.val, 'f', -1, 64), strconv.FormatFloat(x2.Val, 'f', -1, 64), ee.ts/prec.div)
+					x.Labels, x.LabelKey = exp, labelKey(exp)
+					w.Rows = append(w.Rows, x, &x2)
+					continue
+				}
 				if ee.hasV {
 					exp["__name__"] = "value"
-					fmt.Fprintf(&b, " value=%s %d\n", strconv.FormatFloat(ee.val, 'f', -1, 64), ee.ts)
+					fmt.Fprintf(&b, " value=%s %d\n", strconv.FormatFloat(ee.val, 'f', -1, 64), ee.ts/prec.div)
 				} else {
-					fmt.Fprintf(&b, " message=%s %d\n", strconv.Quote(ee.line), ee.ts)
+					fmt.Fprintf(&b, " message=%s %d\n", strconv.Quote(ee.line), ee.ts/prec.div)
 				}
 				x.Labels, x.LabelKey = exp, labelKey(exp)
 				w.Rows = append(w.Rows, x)
